@@ -1,37 +1,15 @@
 """C14 — prioritized files are laid out first, in order, ahead of a single landmark."""
-import json
-import os
-
-import vlib
-
-
-def _estargz_overlay(ctx):
-    """/repo/estargz is its own Go module and cannot import the root module's internal/verifutil.
-    Map the SAME shared source file into the estargz module as well (virtually, via the overlay)."""
-    orig = ctx.overlay_json
-
-    def overlay_json(only=None):
-        path = orig(only)
-        with open(path) as f:
-            d = json.load(f)
-        d["Replace"][os.path.join(vlib.REPO, "estargz", "internal", "verifutil", "util.go")] = \
-            os.path.join(vlib.OVERLAY_SRC, "internal", "verifutil", "util.go")
-        with open(path, "w") as f:
-            json.dump(d, f, indent=1)
-        return path
-
-    ctx.overlay_json = overlay_json
 
 
 def run(ctx):
     ctx.lean_obligations(["SV.Props.C14"], drivers=["svdriver_c14"])
     quick = ctx.tier == "quick"
-    _estargz_overlay(ctx)
     b = ctx.go_test_binary("", "h_estargz", module_dir="estargz")
     if b:
         ctx.correspond(b, "TestVerifC14", "svdriver_c14", "c14",
                        env={"VERIF_N": 1000 if quick else 30000,
-                            "VERIF_NBUILD": 150 if quick else 4000},
+                            "VERIF_NBUILD": 150 if quick else 4000,
+                            "VERIF_NCYCLE": 14 if quick else 60},
                        timeout=600 if quick else 3000)
     return ctx.finish(
         level="proof",
@@ -42,10 +20,9 @@ def run(ctx):
              "first; in-package sortEntries compared entry-for-entry with the model, end-to-end Build under 8 chunk "
              "sizes x 7 min-chunk-sizes x 7 worker counts x 4 gzip levels compared on tar order and TOC chunk list; "
              "the C14 predicate (incl. compressed offsets vs the landmark offset) is evaluated on the implementation; "
-             "cyclic hardlink graphs run in a separate child-process stream",
+             "tars with a cycle in the parent/hardlink graph run in a separate child-process regression stream "
+             "(must return, with an error when a listed path runs into the cycle)",
         assumptions=[
-            "NoLinkCycle: the parent/hardlink graph of the tar has no cycle (otherwise moveRec does not terminate: "
-            "oracle signature moverec-link-cycle)",
             "compressor oracle: closing a compressed stream that received data emits at least one byte "
             "(needed for 'strictly before the landmark offset'); real gzip offsets are validated by the harness only",
             "entry names are valid UTF-8 (the model splits on '/' characters, Go on bytes)",
